@@ -139,6 +139,9 @@ def events(pool):
             ev.append([i, 'humidity'])      # the indistinguishable sibling format, named explicitly
         if e['tag'] == 'nc3_noext':
             ev.append([i, 'netcdf'])
+    # registering again a reader that is registered already (documented to change nothing)
+    for name in ('humidity', 'netcdf', 'uamiv'):
+        ev.append([-1, 'register:' + name])
     return ev
 
 
@@ -150,11 +153,11 @@ REDUCED_EXPLICIT = ('avg.uamiv', 'ict.ffi1001', 'hum.humidity', 'kv_noext', 'nc3
 
 def reduced(ev, pool):
     """the alphabet used at the deepest level: one representative per detection path"""
-    return [e for e in ev if pool[e[0]]['tag'] in (REDUCED if e[1] is None else REDUCED_EXPLICIT)]
+    return [e for e in ev if e[0] < 0 or pool[e[0]]['tag'] in (REDUCED if e[1] is None else REDUCED_EXPLICIT)]
 
 
 def htags(hist):
-    return [POOL[i]['tag'] + ('(format=%s)' % f if f else '') for i, f in hist]
+    return [(POOL[i]['tag'] + ('(format=%s)' % f if f else '')) if i >= 0 else f for i, f in hist]
 
 
 def registry_canon():
@@ -172,6 +175,11 @@ def child(hist, order, wfd):
     try:
         c0, n0 = registry_canon()
         for i, fmt in hist:
+            if i < 0:
+                from PseudoNetCDF._getreader import registerreader, getreaderdict
+                name = fmt.split(':', 1)[1]
+                registerreader(name, getreaderdict()[name])
+                continue
             if fmt in ('humidity', 'vertical_diffusivity'):
                 do_open(dict(POOL[i], kw={'rows': 2, 'cols': 3}), fmt)
             else:
@@ -278,8 +286,9 @@ def baseline_obs():
 def judge(hist, order, base, r):
     vs = []
     tags = htags(hist)
-    scope = dict(hist_len=len(hist), hist_ext=bool(any(POOL[i]['ext'] for i, f in hist)),
-                 hist_explicit=bool(any(f for i, f in hist)))
+    scope = dict(hist_len=len(hist), hist_ext=bool(any(POOL[i]['ext'] for i, f in hist if i >= 0)),
+                 hist_explicit=bool(any(f for i, f in hist if i >= 0)),
+                 hist_register=bool(any(i < 0 for i, f in hist)))
     if r.get('error'):
         vs.append(viol('history-raises', ('history',), '%r after %r' % (r['error'], tags), **scope))
         return vs
